@@ -25,7 +25,7 @@ func init() {
 			"frozen flags change only through the system-contract functions. R7: a revocation removes what it was asked to: a list is never shrunk at the induction index of a forward loop that keeps iterating over it (the element sliding " +
 			"into the freed slot would be skipped and a revoked role would survive). R2 also: every role list the reader hands to the check is allocated by it in the call (a list remembered on the handler is shared with the set-role function, which appends to what it reads). Does NOT decide: histories of set/unset, semantics of bytes.Equal, behaviour of an externally supplied role handler.",
 		Trusted: []string{"T-REG (spec/registry.json): role constants and authority kind per protocol name, restating the property", "A-presence"},
-		Rules:   []func(*Ctx){c03r1, c03r2, c03r3, c03r5, c03r6, c03r7},
+		Rules:   []func(*Ctx){c03r1, c03r2, c03r3, c03r5, c03r6, c03r7, c03r8, c03r9},
 	})
 }
 
